@@ -247,3 +247,36 @@ func (r *roundRobin) emit(e ev) {
 	r.sh.ws[r.i%len(r.sh.ws)].emit(e)
 	r.i++
 }
+
+// ---- spare-capacity guards: a slice handed to the library is the front part of a larger array whose tail holds sentinels;
+//      after the call the tail must be intact (nothing may be appended into a caller's spare capacity) ----
+
+type tailGuard struct{ checks []func() bool }
+
+func (g *tailGuard) ok() bool {
+	for _, c := range g.checks {
+		if !c() {
+			return false
+		}
+	}
+	return true
+}
+
+func guardSlice[T comparable](g *tailGuard, s []T, fill T) []T {
+	const extra = 24
+	arr := make([]T, len(s)+extra)
+	copy(arr, s)
+	for i := len(s); i < len(arr); i++ {
+		arr[i] = fill
+	}
+	n := len(s)
+	g.checks = append(g.checks, func() bool {
+		for i := n; i < len(arr); i++ {
+			if arr[i] != fill {
+				return false
+			}
+		}
+		return true
+	})
+	return arr[:n]
+}
